@@ -45,6 +45,9 @@ PROPS = {
                              "EOM-mode channels (strict compares only the EOM bandwidth when not parametrized) and the non-strict clause: bounded stand-in",
                              "switch_register: bounded stand-in"],
                 assumptions=["A-MODBW modulation buffers depend on the channel only through its bandwidths"]),
+    "C12": dict(lemmas=[], not_decided=["pairwise-distance and radial-distance leaves (numpy pdist/squareform/argwhere/linalg.norm) and the exact culprit lists: bounded stand-in",
+                                        "device-aware constructors (max_connectivity, with_automatic_layout) and device construction: bounded stand-in"],
+                assumptions=["A-IMMUT register/layout/device properties are pure"]),
     "C10": dict(lemmas=[], not_decided=["phase-jump clause with phase-drift correction (EOM) is stated for drift-free adds only"], assumptions=[]),
     "C09": dict(only=r"/(exc_safe|frame)\.", lemmas=[], not_decided=["replay determinism as a theorem; draw()"], assumptions=[]),
 }
